@@ -172,11 +172,40 @@ def related_leaf(r, doc, tested):
     return None
 
 
+def graft_branches(r, d):
+    """Adds to `d` a container of sibling branches of which only some lead to the referenced node - the others match the
+    next part and then dead-end - and returns a reference path `host / * / k / target` whose first / last selected node
+    lies in a branch that is not the first / last one walked (seeded C17-o: an early exit per level)."""
+    k, tgt, other = r.choice(["runs", "a", 1]), r.choice(["limit", "b", 0]), r.choice(["name", "c"])
+    multi = r.choice(["first", "first", "last", "all"])
+    dead = lambda: {k: r.choice([{other: G.scalar(r)}, G.scalar(r), [], {}])}
+    live = lambda: {k: {tgt: G.scalar(r), other: G.scalar(r)} if r.coin() else {tgt: G.scalar(r)}}
+    deads = [dead() for _ in range(r.between(1, 2))]
+    lives = [live() for _ in range(r.between(1, 2))]
+    branches = lives + deads if multi == "last" else deads + lives
+    if r.coin(30):
+        branches.insert(r.below(len(branches) + 1), dead())
+    as_map = r.coin(40)
+    cont = {f"g{i}": b for i, b in enumerate(branches)} if as_map else branches
+    if isinstance(d, dict):
+        host = r.choice(["groups", "grp", 7])
+        d[host] = cont
+    else:
+        host = len(d)
+        d.append(cont)
+    fan = Part("map" if as_map and r.coin() else "list" if not as_map and r.coin() else "mol")
+    return PathT([Prim(host), fan, Prim(k), Prim(tgt)], None, multi, r.choice(["dm", "md"]))
+
+
 def gen_case(r):
     d = G.doc(r, 4 if r.coin(60) else 3)
+    forced = graft_branches(r, d) if r.pct() < 7 else None
     p = G.guided_path(r, d, max_len=3, miss=10, mode="typed", meaningful=True)
     leaf = None
-    if r.coin(55):
+    if forced is not None:
+        name = r.choice(SINGLE)
+        leaf = Leaf("value", None, name, kwargs={("key" if name == "keys_contain" else "value"): forced})
+    elif r.coin(55):
         tested = model.ref_select(p.parts, d) if p.parts else []
         leaf = related_leaf(r, d, tested)
     if leaf is None:
